@@ -14,10 +14,23 @@ of the n(z) formula, and directly built CorrData / RedshiftData / HistData with 
 .covariance / .error are compared entry-wise with Model/Jackknife.v:cov_opt (for every pair of bins
 that is finite in ALL samples: the delete-one covariance over ALL N samples; Props/C03:
 C03_cov_opt_defined, C03_cov_code_columns, C03_cov_drop_refuted).
+(d) magnitudes: every scenario above again on arrays far from order one - counts, weights, both (object weights of
+2^-40..2^-8 or 2^+8..2^+40 per catalog, so that counts carry the product), a common factor per bin (CorrFunc * c), every
+bin of every member on a scale of its own, per-patch spreads; samples of directly built containers, CorrData handed to
+RedshiftData.from_corrdata and catalog weights of histograms multiplied by 2^-100..2^+100.  All factors are powers of
+two, so the float64 sums stay exact and the Q model is compared as before (Props/C03: C03_loo_homogeneous,
+C03_normalisation_homogeneous, C03_nc_sample_weight_invariant, C03_threshold_refuted).  (e) the real pipeline:
+small catalogs with weights of order one, 2^-40..2^-20 and 2^+20..2^+40, with and without rweight -> crosscorrelate /
+autocorrelate -> CorrFunc.sample() / RedshiftData.from_corrfuncs(): the samples against the model on the pair counts the
+measurement stored, and sample k against the measurement repeated on the catalogs without patch k (c03_rerun_case).
 """
+import math
+import os
+
 import numpy as np
 
 from lib import floatq as fq
+from lib import impl
 from props import _jk_common as jk
 
 ALLOWED_AXIOMS = []
@@ -30,6 +43,9 @@ TRUSTED = [
     "for the estimator, 2^-44 of the natural scale for the covariance)",
     "per-patch histograms handed to the model are computed by the harness from redshifts placed strictly inside bins "
     "(bin-edge membership is C10's subject)",
+    "real-pipeline cases: the pair counts and sums of weights the measurement stored in the CorrFunc are taken as the data of "
+    "the model; that these are the pair counts of the catalogs is C01 / C10's subject.  With rweight the stored counts are "
+    "not dyadic: the float64 leave-one-out sums round, the comparison uses 2^-40 of the forward error scale instead of 2^-48",
 ]
 ASSUMPTIONS = [
     "histogram rows are compared for max_workers=1 (row order under parallel completion is C05's subject)",
@@ -37,11 +53,17 @@ ASSUMPTIONS = [
     "covariance entries of a bin that has a non-finite sample have no value in the property's formula: that the "
     "implementation reports a non-finite float there is part of the model tie (ctx.disagree), not of the property",
     "containers with a single sample (one patch) are outside the property (patches >= 2)",
+    "magnitudes: all factors are powers of two between 2^-100 and 2^+100 (no float64 underflow / overflow in sums, products "
+    "and covariances); sample k of a real measurement is compared with the measurement repeated without patch k only where "
+    "both are numbers (a leave-one-out sum that is exactly 0 in one order of summation can be a rounding residual in another)",
 ]
 RULE = ("cases = one container (PatchedCounts | PatchedSumWeights | NormalisedCounts | CorrFunc with a subset of dr/rd/rr | "
         "triple of CorrFuncs for n(z) | catalog for a histogram) with its arrays; distinct by all array entries; "
         "non-trivial when patches >= 2 and the samples differ between at least two patches (so that a permuted, "
-        "mis-signed or incomplete leave-one-out sum changes the output)")
+        "mis-signed or incomplete leave-one-out sum changes the output); magnitude cases (kind label .../mag:<profile>) are the "
+        "same kinds of case on power-of-two scaled arrays, pipeline cases (kind pipeline/...) are real measurements; the "
+        "histograms loo-count-magnitude/* and sample-magnitude/* say which decades the smallest non-zero leave-one-out "
+        "pair-count sum and the samples reached")
 
 KNOWN_HIST_SIG = "c03-hist-samples-reversed"
 
@@ -163,7 +185,8 @@ def case_sps(ctx, batch, spec):
     sd = jk.build_counts(spec["edges"], p).sample_patch_sum()
     term = "c03_sps_case %s %s %s %s" % (fq.nat(spec["N"]), jk.qmat3(p["counts"]), fq.qlist(sd.data), fq.qmat(sd.samples))
     batch.add(term, h_sps(ctx), dict(kind="sps", spec=spec))
-    ctx.count(key=("sps", repr(p["counts"])), nontrivial=varies(sd.samples), kind="sps/%s" % spec.get("mode", "?"))
+    ctx.count(key=("sps", repr(p["counts"])), nontrivial=varies(sd.samples), kind="sps/%s%s" % (spec.get("mode", "?"), mag_suffix(spec)))
+    note_loo_magnitude(ctx, [p])
     ctx.sample(dict(kind="sps", counts=p["counts"], samples=sd.samples.tolist()), limit=2)
 
 
@@ -177,7 +200,8 @@ def case_weights(ctx, batch, spec):
         fq.qmat(sd.samples))
     batch.add(term, h_weights(ctx), dict(kind="weights", spec=spec))
     ctx.count(key=("weights", p["auto"], repr(p["w1"]), repr(p["w2"])), nontrivial=varies(sd.samples),
-              kind="weights/%s" % ("auto" if p["auto"] else "cross"))
+              kind="weights/%s%s" % ("auto" if p["auto"] else "cross", mag_suffix(spec)))
+    note_decade(ctx, "weights-sample-magnitude", sd.samples)
 
 
 def case_nc(ctx, batch, spec):
@@ -187,30 +211,38 @@ def case_nc(ctx, batch, spec):
         fq.nat(spec["N"]), fq.b(p["auto"]), jk.qmat3(p["counts"]), fq.qmat(p["w1"]), fq.qmat(p["w2"]),
         jk.oqlist(sd.data), jk.oqmat(sd.samples))
     batch.add(term, h_nc(ctx), dict(kind="nc", spec=spec))
-    ctx.count(key=("nc", repr(p)), nontrivial=varies(sd.samples), kind="nc/%s" % ("auto" if p["auto"] else "cross"))
+    ctx.count(key=("nc", repr(p)), nontrivial=varies(sd.samples), kind="nc/%s%s" % ("auto" if p["auto"] else "cross", mag_suffix(spec)))
+    note_loo_magnitude(ctx, [p])
+    note_decade(ctx, "nc-sample-magnitude", sd.samples)
     if not jk.all_finite(sd.samples):
         ctx.bump("impl_nonfinite_entries")
 
 
-def case_corr(ctx, batch, cov_batch, spec):
+def case_corr(ctx, batch, cov_batch, spec, obj=None, label=None):
+    """CorrFunc.sample() of the container built from spec (or of `obj`, a CorrFunc of a real measurement whose stored
+    arrays are spec) against the model; spec['rounded']: the stored counts are not dyadic (rweight)"""
     sub = jk.subset_of(spec)
     auto = spec["kinds"]["dd"]["auto"]
     try:
-        cd = jk.quiet(jk.build_corrfunc(spec["edges"], spec["kinds"]).sample)
+        cd = jk.quiet((obj if obj is not None else jk.build_corrfunc(spec["edges"], spec["kinds"])).sample)
     except Exception as e:  # noqa: BLE001
         ctx.count(key=("corr-raised", repr(spec)), kind="corr/raised")
         ctx.fail("c03-raises:%s" % type(e).__name__, "CorrFunc.sample() raised %s: %s for counts {%s} for which an "
                  "estimator is defined" % (type(e).__name__, e, ",".join(sub)), dict(kind="corr", spec=spec))
-        return
-    batch.add("c03_corr_case %s %s" % (jk.corr_args(spec), jk.oqmat(cd.samples)), h_corr(ctx), dict(kind="corr", spec=spec))
+        return None
+    checker = "c03_corr_case_tol tolp" if spec.get("rounded") else "c03_corr_case"
+    batch.add("%s %s %s" % (checker, jk.corr_args(spec), jk.oqmat(cd.samples)), h_corr(ctx), dict(kind="corr", spec=spec))
     ctx.count(key=("corr", repr(spec)), nontrivial=varies(cd.samples),
-              kind="corr/%s/%s" % ("auto" if auto else "cross", "+".join(sub)))
+              kind=label or "corr/%s/%s%s" % ("auto" if auto else "cross", "+".join(sub), mag_suffix(spec)))
     ctx.sample(dict(kind="corr", subset=sub, N=spec["N"], samples=np.asarray(cd.samples).tolist()), limit=3)
+    note_loo_magnitude(ctx, [q for q in spec["kinds"].values() if q is not None])
+    note_decade(ctx, "corr-sample-magnitude", cd.samples)
     B = len(spec["edges"]) - 1
     add_cov(ctx, cov_batch, cd, spec.get("probes") or jk.probes_for(ctx.rng, B), dict(kind="corr-cov", spec=spec),
-            ("cov", repr(spec)), "covariance/corr")
+            ("cov", repr(spec)), "covariance/%s" % (label or "corr" + mag_suffix(spec)))
     if not jk.all_finite(cd.samples):
         ctx.bump("impl_nonfinite_entries")
+    return cd
 
 
 def case_nz(ctx, batch, cov_batch, spec):
@@ -223,9 +255,10 @@ def case_nz(ctx, batch, cov_batch, spec):
         return
     batch.add(jk.nz_term(dz, cross, ref, unk, nz), h_nz(ctx), dict(kind="nz", spec=spec))
     ctx.count(key=("nz", repr(spec)), nontrivial=varies(nz.samples),
-              kind="nz/%s%s" % ("ref" if ref is not None else "", "+unk" if unk is not None else ""))
+              kind="nz/%s%s%s" % ("ref" if ref is not None else "", "+unk" if unk is not None else "", mag_suffix(spec)))
+    note_decade(ctx, "nz-sample-magnitude", nz.samples)
     add_cov(ctx, cov_batch, nz, jk.probes_for(ctx.rng, len(dz)), dict(kind="nz-cov", spec=spec), ("cov-nz", repr(spec)),
-            "covariance/nz")
+            "covariance/nz" + mag_suffix(spec))
 
 
 def undefined_profile(samples):
@@ -293,7 +326,8 @@ def case_direct(ctx, cov_batch, spec):
         ctx.bump("direct_samples_altered")      # C04's subject; the covariance is compared with the container's own samples
     B = samples.shape[1]
     add_cov(ctx, cov_batch, sd, spec.get("probes") or jk.probes_for(ctx.rng, B), dict(kind="direct", spec=spec),
-            ("cov-direct", repr(spec["cls"]), repr(spec["samples"])), "covariance/direct-%s" % spec["cls"])
+            ("cov-direct", repr(spec["cls"]), repr(spec["samples"])), "covariance/direct-%s%s" % (spec["cls"], mag_suffix(spec)))
+    note_decade(ctx, "direct-sample-magnitude", samples)
 
 
 def case_hist(ctx, batch, cov_batch, spec, tag):
@@ -310,11 +344,12 @@ def case_hist(ctx, batch, cov_batch, spec, tag):
     batch.add(term, h_hist(ctx), dict(kind="hist", spec=dict(spec, obs=[[float(x) for x in r] for r in obs]),
                                       impl_samples=np.asarray(h.samples).tolist()))
     loo = [[sum(obs[p][b] for p in range(len(obs)) if p != k) for b in range(B)] for k in range(len(obs))]
-    ctx.count(key=("hist", repr(rows), repr(edges)), nontrivial=loo != loo[::-1], kind="hist/N%d" % len(obs))
+    ctx.count(key=("hist", repr(rows), repr(edges)), nontrivial=loo != loo[::-1], kind="hist/N%d%s" % (len(obs), mag_suffix(spec)))
+    note_decade(ctx, "hist-sample-magnitude", h.samples)
     ctx.sample(dict(kind="hist", per_patch_hist=[[float(x) for x in r] for r in obs],
                     impl_samples=np.asarray(h.samples).tolist()), limit=4)
     add_cov(ctx, cov_batch, h, jk.probes_for(ctx.rng, B), dict(kind="hist-cov", spec=dict(spec, obs=None)),
-            ("cov-hist", repr(rows)), "covariance/hist")
+            ("cov-hist", repr(rows)), "covariance/hist" + mag_suffix(spec))
     return h
 
 
@@ -562,30 +597,468 @@ def traces(ctx):
     jk.run_traces(ctx, jobs)
 
 
+# ----------------------------------------------------------------------------- magnitudes
+# The generators above keep counts and weights between 1e-1 and 1e+2.  Pair counts are sums of products of object
+# weights (times a scale weight), histograms are sums of weights: their unit is arbitrary.  Here every kind of case is
+# repeated on arrays multiplied by powers of two (exact in float64 and in Q): counts alone, weights alone, both
+# consistently (object weights of one catalog times 2^e: counts carry the product), a common factor per bin, every
+# bin of every member on its own scale, patches of a bin spread over 2^0..2^6.
+HEADER_X = jk.HEADER + (
+    "Definition tolp : Q := 1 # 1099511627776.   (* 2^-40: stored pair counts that are not dyadic (rweight) *)\n"
+    "Definition c03_corr_case_tol (tol : Q) (N : nat) (dd : pc) (dr rd rr : option pc) (samples : list (list oq)) : nat :=\n"
+    "  code [ res_mat_ok tol (corr_samples N dd dr rd rr) samples; res_mat_ok tol (corr_recount N dd dr rd rr) samples ].\n")
+
+
+class BatchX(jk.Batch):
+    """jk.Batch with the header above"""
+
+    def run(self):
+        if not self.items:
+            return
+        codes = self.ctx.shards(self.name, HEADER_X, [t for t, _, _ in self.items], shard=self.shard)
+        for idx, ((term, handler, replay), c) in enumerate(zip(self.items, codes)):
+            if c is not None and c != 0:
+                handler(c, "%s#%d" % (self.name, idx), replay)
+
+
+PC_PROFILES = ("counts-tiny", "counts-small", "counts-huge", "weights-tiny", "weights-huge", "object-weights-tiny",
+               "object-weights-small", "object-weights-huge", "mixed")
+CF_PROFILES = ("object-weights-tiny", "object-weights-small", "object-weights-huge", "object-weights-any", "rweight-like",
+               "counts-common", "per-member", "survey")
+DECADES = ((1e-24, "below-1e-24"), (1e-16, "1e-24..1e-16"), (1e-12, "1e-16..1e-12"), (1e-8, "1e-12..1e-8"),
+           (1e-4, "1e-8..1e-4"), (1e4, "1e-4..1e+4"), (1e8, "1e+4..1e+8"), (1e16, "1e+8..1e+16"))
+
+
+def mag_suffix(spec):
+    return "/mag:%s" % spec["mag"]["profile"] if spec.get("mag") else ""
+
+
+def decade(x):
+    for lim, name in DECADES:
+        if x < lim:
+            return name
+    return "above-1e+16"
+
+
+def note_decade(ctx, name, arr):
+    """evidence: the decades of the smallest non-zero and of the largest finite |entry|"""
+    a = np.abs(np.asarray(arr, dtype=float)).ravel()
+    a = a[np.isfinite(a) & (a > 0)]
+    if a.size:
+        ctx.bump("%s/smallest-nonzero:%s" % (name, decade(float(a.min()))))
+        ctx.bump("%s/largest:%s" % (name, decade(float(a.max()))))
+
+
+def note_loo_magnitude(ctx, pcs):
+    """evidence: the decade of the smallest non-zero leave-one-out pair-count sum of the case"""
+    best = None
+    for p in pcs:
+        C = np.asarray(p["counts"], dtype=float)
+        loo = C.sum(axis=(1, 2))[:, None] - C.sum(axis=1) - C.sum(axis=2) + np.einsum("bii->bi", C)
+        a = np.abs(loo[loo != 0])
+        if a.size and (best is None or a.min() < best):
+            best = float(a.min())
+    if best is not None:
+        ctx.bump("loo-count-magnitude/smallest-nonzero:%s" % decade(best))
+
+
+def exp_in(rng, region):
+    return {"tiny": lambda: rng.randint(-40, -20), "small": lambda: rng.randint(-19, -8), "large": lambda: rng.randint(8, 19),
+            "huge": lambda: rng.randint(20, 40), "plain": lambda: 0}[region]()
+
+
+def pc_bin_exps(rng, profile):
+    """(counts, weights 1, weights 2) exponents of one bin of one pair-count container"""
+    if profile == "counts-tiny":
+        return rng.randint(-80, -27), 0, 0
+    if profile == "counts-small":
+        return rng.randint(-26, -8), 0, 0
+    if profile == "counts-huge":
+        return rng.randint(20, 80), 0, 0
+    if profile == "weights-tiny":
+        return 0, rng.randint(-40, -8), rng.randint(-40, -8)
+    if profile == "weights-huge":
+        return 0, rng.randint(8, 40), rng.randint(8, 40)
+    if profile.startswith("object-weights-"):
+        e1, e2 = exp_in(rng, profile.rsplit("-", 1)[1]), exp_in(rng, profile.rsplit("-", 1)[1])
+        return e1 + e2, e1, e2
+    return 0, 0, 0
+
+
+def pc_exps(rng, B, profile):
+    if profile == "mixed":
+        return [pc_bin_exps(rng, rng.choice(PC_PROFILES[:-1] + ("plain",))) for _ in range(B)]
+    if rng.random() < 0.5:
+        return [pc_bin_exps(rng, profile)] * B
+    return [pc_bin_exps(rng, profile) for _ in range(B)]
+
+
+def scale_pc(rng, p, exps, ragged=False):
+    """multiply bin b of the counts / weights of p (numpy arrays) by 2^exps[b][0..2]; weights shared by both samples of
+    an autocorrelation stay shared; ragged: the patches of a bin additionally differ by factors 2^0..2^6"""
+    same = bool(p["auto"]) and np.array_equal(p["w1"], p["w2"])
+    N = p["w1"].shape[1]
+    for b, (ec, e1, e2) in enumerate(exps):
+        p["counts"][b] *= math.ldexp(1.0, ec)
+        for w, e in ((p["w1"], e1), (p["w2"], e2)):
+            for i in range(N):
+                w[b, i] *= math.ldexp(1.0, e + (rng.randint(0, 6) if ragged else 0))
+    if same:
+        p["w2"] = p["w1"].copy()
+
+
+def gen_single_mag(rng, what, small=False, profile=None):
+    B, N = jk.pick_shape(rng, small)
+    profile = profile or rng.choice(PC_PROFILES)
+    if what == "weights" and profile.startswith("counts-"):
+        profile = "weights-" + ("tiny" if profile != "counts-huge" else "huge")
+    mode = rng.choice(["dense", "sparse", "dyadic", "binary"])
+    p = jk.gen_pc(rng, B, N, rng.random() < 0.5, mode)
+    ragged = rng.random() < 0.3
+    scale_pc(rng, p, pc_exps(rng, B, profile), ragged)
+    return dict(edges=jk.gen_binning(rng, B), N=N, mode=mode, pc=jk.pc_plain(p), mag=dict(profile=profile, ragged=ragged))
+
+
+def cf_exps(rng, members, B, auto, profile):
+    """exponents (counts, weights 1, weights 2) per member and bin of a CorrFunc"""
+    if profile.startswith("object-weights-") or profile == "rweight-like":
+        region = profile.rsplit("-", 1)[1]
+
+        def cat():          # one factor per catalog: the counts carry the product
+            return exp_in(rng, region if region in ("tiny", "small", "huge") else rng.choice(["tiny", "small", "large", "huge", "plain"]))
+        eD1, eR1 = cat(), cat()
+        eD2, eR2 = (eD1, eR1) if auto else (cat(), cat())
+        cats = dict(dd=(eD1, eD2), dr=(eD1, eR2), rd=(eR1, eD2), rr=(eR1, eR2))
+        # a scale weight r^alpha multiplies every pair, in every member alike
+        extra = [rng.randint(-30, -5) if profile == "rweight-like" else 0 for _ in range(B)]
+        return {k: [(cats[k][0] + cats[k][1] + extra[b], cats[k][0], cats[k][1]) for b in range(B)] for k in members}
+    if profile == "counts-common":      # CorrFunc * c
+        per_bin = [rng.choice([-1, -1, 1]) * rng.randint(10, 60) for _ in range(B)]
+        if rng.random() < 0.5:
+            per_bin = per_bin[:1] * B
+        return {k: [(e, 0, 0) for e in per_bin] for k in members}
+    if profile == "per-member":
+        return {k: [pc_bin_exps(rng, rng.choice(PC_PROFILES[:-1] + ("plain",))) for _ in range(B)] for k in members}
+    if profile == "survey":             # one scale per catalog and bin, randoms denser than data, counts of order one
+        out = {k: [] for k in members}
+        for _ in range(B):
+            eD1 = rng.randint(8, 30)
+            eD2 = eD1 if auto else rng.randint(8, 30)
+            eR1 = eD1 + rng.randint(0, 10)
+            eR2 = eR1 if auto else eD2 + rng.randint(0, 10)
+            for k, e in (("dd", (0, eD1, eD2)), ("dr", (0, eD1, eR2)), ("rd", (0, eR1, eD2)), ("rr", (0, eR1, eR2))):
+                if k in out:
+                    out[k].append(e)
+        return out
+    raise KeyError(profile)
+
+
+def gen_corr_mag(rng, small=False, profile=None, shape=None, edges=None, auto=None, sub=None):
+    profile = profile or rng.choice(CF_PROFILES)
+    B, N = shape or jk.pick_shape(rng, small)
+    mode = rng.choice(["dense", "dense", "sparse", "dyadic", "binary"])
+    auto = (rng.random() < 0.5) if auto is None else auto
+    defined = [s for s in jk.SUBSETS if "dr" in s or ("rr" not in s)]
+    d = jk.gen_corrfunc(rng, B, N, auto, mode, sub or rng.choice(defined))
+    members = [k for k in ("dd",) + jk.KINDS if d[k] is not None]
+    exps = cf_exps(rng, members, B, auto, profile)
+    ragged = rng.random() < 0.3
+    for k in members:
+        scale_pc(rng, d[k], exps[k], ragged)
+    spec = jk.corr_plain(edges if edges is not None else jk.gen_binning(rng, B), N, d)
+    spec["mag"] = dict(profile=profile, ragged=ragged)
+    return spec
+
+
+def gen_nz_spec_mag(rng, small=False):
+    """jk.gen_nz_spec with the three CorrFuncs drawn from the magnitude profiles (one binning, one patch number)"""
+    B, N = jk.pick_shape(rng, small)
+    edges = jk.gen_binning(rng, B)
+
+    def one(auto):
+        return gen_corr_mag(rng, shape=(B, N), edges=edges, auto=auto)
+    return dict(cross=one(False), ref=one(True) if rng.random() < 0.7 else None, unk=one(True) if rng.random() < 0.5 else None,
+                mag=dict(profile="corrfuncs"))
+
+
+def span(rng):
+    return rng.choice([-1, -1, 1]) * rng.choice([rng.randint(8, 26), rng.randint(27, 60), rng.randint(61, 100)])
+
+
+def bin_exps(rng, B):
+    """one power of two for all bins, or one per bin (some bins left as they are)"""
+    if rng.random() < 0.5:
+        return [span(rng)] * B
+    return [span(rng) if rng.random() < 0.7 else 0 for _ in range(B)]
+
+
+def gen_direct_mag(rng, pattern=None, cls=None):
+    """gen_direct with the numbers of bin b multiplied by 2^e_b"""
+    spec = gen_direct(rng, pattern, cls)
+    B = len(spec["data"])
+    exps = bin_exps(rng, B)
+
+    def sc(x, e):
+        return x if isinstance(x, str) else x * math.ldexp(1.0, e)
+    spec["samples"] = [[sc(x, e) for x, e in zip(r, exps)] for r in spec["samples"]]
+    spec["data"] = [sc(x, e) for x, e in zip(spec["data"], exps)]
+    spec["mag"] = dict(profile="samples-scaled", exps=exps)
+    return spec
+
+
+def gen_nz_direct(rng, scaled=True):
+    """CorrData (values and samples) of a cross-correlation and of optional autocorrelations, handed to
+    RedshiftData.from_corrdata: estimator values of any size (a measured w can be 1e-9 as well as 1e+6)"""
+    B = rng.choice([1, 2, 3, 4])
+    N = rng.choice([2, 3, 4, 5, 7])
+    edges = jk.gen_binning(rng, B)
+
+    def cd(positive):
+        exps = bin_exps(rng, B) if scaled else [0] * B
+
+        def val(e):
+            m = rng.randrange(1, 200) if positive and rng.random() < 0.93 else rng.randrange(-200, 200)
+            return m / 16.0 * math.ldexp(1.0, e)
+        return dict(data=[val(e) for e in exps], samples=[[val(e) for e in exps] for _ in range(N)], exps=exps)
+    return dict(edges=edges, cross=cd(False), ref=cd(True) if rng.random() < 0.7 else None, unk=cd(True) if rng.random() < 0.5 else None,
+                mag=dict(profile="corrdata-scaled") if scaled else None)
+
+
+def case_nz_direct(ctx, batch, cov_batch, spec):
+    binning = jk.Binning(spec["edges"], closed="right")
+
+    def mk(d):
+        return None if d is None else jk.CorrData(binning, np.array(d["data"], dtype=float), np.array(d["samples"], dtype=float))
+    cross, ref, unk = mk(spec["cross"]), mk(spec["ref"]), mk(spec["unk"])
+    try:
+        nz = jk.quiet(jk.RedshiftData.from_corrdata, cross, ref, unk)
+    except Exception as e:  # noqa: BLE001
+        ctx.count(key=("nz-direct-raised", repr(spec)), kind="nz-direct/raised")
+        ctx.fail("c03-raises:%s" % type(e).__name__, "RedshiftData.from_corrdata raised %s: %s" % (type(e).__name__, e),
+                 dict(kind="nz-direct", spec=spec))
+        return
+    dz = list(binning.dz)
+    batch.add(jk.nz_term(dz, cross, ref, unk, nz), h_nz(ctx), dict(kind="nz-direct", spec=spec))
+    ctx.count(key=("nz-direct", repr(spec)), nontrivial=varies(nz.samples),
+              kind="nz-direct/%s%s%s" % ("ref" if ref is not None else "", "+unk" if unk is not None else "", mag_suffix(spec)))
+    note_decade(ctx, "nz-sample-magnitude", nz.samples)
+    add_cov(ctx, cov_batch, nz, jk.probes_for(ctx.rng, len(dz)), dict(kind="nz-direct-cov", spec=spec),
+            ("cov-nz-direct", repr(spec)), "covariance/nz-direct" + mag_suffix(spec))
+
+
+def gen_hist_mag(rng, N, B, region=None):
+    """a weighted catalog whose weights are 2^e times small dyadic numbers (one e per catalog, or per patch e + 0..6)"""
+    from fractions import Fraction
+    edges, rows, obs = jk.gen_hist_catalog(rng, N, B, weighted=True)
+    region = region or rng.choice(["tiny", "tiny", "small", "huge", "far"])
+    e = rng.choice([-1, 1]) * rng.randint(41, 100) if region == "far" else exp_in(rng, region)
+    ragged = rng.random() < 0.3
+    ep = [e + (rng.randint(0, 6) if ragged else 0) for _ in range(N)]
+    rows = [(ra, dec, z, p, w * math.ldexp(1.0, ep[p])) for (ra, dec, z, p, w) in rows]
+    obs = [[x * Fraction(2) ** ep[p] for x in r] for p, r in enumerate(obs)]
+    return dict(edges=edges, rows=rows, obs=obs, weighted=True, mag=dict(profile="weights-" + region, ragged=ragged, exps=ep))
+
+
+# ----------------------------------------------------------------------------- the real pipeline
+PIPE_EDGES = [0.2, 0.4, 0.6, 0.8]
+PIPE_ZS = [0.25, 0.3, 0.35, 0.45, 0.5, 0.55, 0.65, 0.7, 0.75]
+PIPE_MODES = ("plain", "tiny", "tiny", "small", "huge", "per-catalog")
+
+
+def h_rerun(ctx):
+    def h(c, case, replay):
+        ctx.fail("c03-pipeline-sample-not-rerun-without-patch", "jackknife sample %d of %s(...)[0].sample() is not the value of the same "
+                 "measurement repeated on the catalogs with patch %d removed (weights %s, rweight %s)"
+                 % (replay["k"], replay["which"], replay["k"], replay["spec"]["mag"]["profile"], replay["spec"]["rweight"]),
+                 replay, case=case)
+    return h
+
+
+def gen_pipeline(rng, mode=None, rweight="draw"):
+    from props.c01 import offset, cluster
+    npatch = rng.choice([3, 4, 4, 5])
+    mode = mode or rng.choice(PIPE_MODES)
+    if rweight == "draw":
+        rweight = rng.choice([None, None, 1.0, -0.5, 2.0])
+    names = ("ref", "unk", "rand", "rand2")
+    if mode == "per-catalog":
+        exps = {c: exp_in(rng, rng.choice(["tiny", "small", "plain", "huge"])) for c in names}
+    else:
+        e = exp_in(rng, mode)
+        exps = {c: e for c in names}
+    cents = [offset(40.0, 10.0, k * 0.9, (k % 2) * 0.5) for k in range(npatch)]
+
+    def rows(n, e, with_z):
+        out = []
+        for k in range(npatch):
+            for (ra, dec) in cluster(rng, cents[k][0], cents[k][1], n, 0.3):
+                out.append([ra, dec, rng.randrange(1, 9) / 2.0 * math.ldexp(1.0, e), k, rng.choice(PIPE_ZS) if with_z else None])
+        return out
+    randoms = rng.choice(["ref_rand", "unk_rand", "both", "both"])
+    return dict(npatch=npatch, cents=[list(c) for c in cents], randoms=randoms, rweight=rweight, edges=PIPE_EDGES,
+                rmin=5.0, rmax=40.0, unit="arcmin",
+                cats=dict(ref=rows(8, exps["ref"], True), unk=rows(7, exps["unk"], False), rand=rows(12, exps["rand"], True),
+                          rand2=rows(10, exps["rand2"], False)),
+                mag=dict(profile="catalog-weights-" + mode, exps=exps))
+
+
+def pipe_catalogs(ctx, spec, tag, skip=None):
+    """the catalogs of a pipeline scenario, without the objects and the centre of patch `skip`"""
+    cents = [c for k, c in enumerate(spec["cents"]) if k != skip]
+    centers = impl.AngularCoordinates(np.deg2rad(np.asarray(cents)))
+    out = {}
+    for name, rows in spec["cats"].items():
+        rows = [r for r in rows if r[3] != skip]
+        cols = dict(ra=[r[0] for r in rows], dec=[r[1] for r in rows], w=[r[2] for r in rows])
+        kw = dict(ra_name="ra", dec_name="dec", weight_name="w", patch_centers=centers, max_workers=1)
+        if rows and rows[0][4] is not None:
+            cols["z"] = [r[4] for r in rows]
+            kw["redshift_name"] = "z"
+        out[name] = impl.Catalog.from_dataframe(impl.fresh_dir(ctx, "pipe_%s_%s" % (tag, name)), impl.make_df(cols), **kw)
+    return out
+
+
+def pipe_measure(spec, cats):
+    import yaw
+    cfg = impl.Configuration.create(rmin=spec["rmin"], rmax=spec["rmax"], unit=spec["unit"], edges=spec["edges"],
+                                    rweight=spec["rweight"], max_workers=1)
+    kw = {}
+    if spec["randoms"] in ("ref_rand", "both"):
+        kw["ref_rand"] = cats["rand"]
+    if spec["randoms"] in ("unk_rand", "both"):
+        kw["unk_rand"] = cats["rand2"]
+    cross = jk.quiet(yaw.crosscorrelate, cfg, cats["ref"], cats["unk"], max_workers=1, **kw)[0]
+    auto = jk.quiet(yaw.autocorrelate, cfg, cats["ref"], cats["rand"], max_workers=1)[0]
+    return dict(crosscorrelate=cross, autocorrelate=auto)
+
+
+def cf_spec(cf, spec):
+    """the pair counts and sums of weights a measured CorrFunc stores, as a case description"""
+    kinds = {}
+    for k in ("dd",) + jk.KINDS:
+        nc = getattr(cf, k)
+        kinds[k] = None if nc is None else jk.pc_plain(dict(auto=bool(nc.counts.auto), counts=nc.counts.counts,
+                                                            w1=nc.sum_weights.sum_weights1, w2=nc.sum_weights.sum_weights2))
+    return dict(edges=[float(x) for x in cf.binning.edges], N=int(cf.num_patches), kinds=kinds, rounded=spec["rweight"] is not None,
+                mag=spec["mag"], origin="measured")
+
+
+def patches_as_generated(spec, cf):
+    """the sums of weights per bin and patch of the reference sample are those of the generated clusters"""
+    edges, N = spec["edges"], spec["npatch"]
+    want = np.zeros((len(edges) - 1, N))
+    for ra, dec, w, k, z in spec["cats"]["ref"]:
+        for b in range(len(edges) - 1):
+            if edges[b] < z <= edges[b + 1]:
+                want[b, k] += w
+    return cf.num_patches == N and np.array_equal(want, np.asarray(cf.dd.sum_weights.sum_weights1, dtype=float))
+
+
+def case_pipeline(ctx, b_corr, b_nz, b_cov, b_rerun, spec, tag, ks=None):
+    import shutil
+    profile = "%s/%s" % (spec["mag"]["profile"], "rweight" if spec["rweight"] is not None else "no-rweight")
+    try:
+        try:
+            res = pipe_measure(spec, pipe_catalogs(ctx, spec, tag))
+        except Exception as e:  # noqa: BLE001  a refusal of these catalogs is not a violation of the property
+            ctx.bump("pipeline_refused:%s" % type(e).__name__)
+            ctx.log("pipeline scenario refused: %s: %s" % (type(e).__name__, str(e)[:200]))
+            return
+        cds = {}
+        for which, cf in res.items():
+            cds[which] = case_corr(ctx, b_corr, b_cov, cf_spec(cf, spec), obj=cf, label="pipeline/%s/%s" % (which, profile))
+        if cds["crosscorrelate"] is not None:
+            for use_ref in (True, False):
+                ref = cds["autocorrelate"] if use_ref else None
+                if use_ref and ref is None:
+                    continue
+                nz = jk.quiet(jk.RedshiftData.from_corrfuncs, res["crosscorrelate"], res["autocorrelate"] if use_ref else None)
+                dz = list(res["crosscorrelate"].binning.dz)
+                b_nz.add(jk.nz_term(dz, cds["crosscorrelate"], ref, None, nz), h_nz(ctx), dict(kind="pipeline", spec=spec))
+                ctx.count(key=("pipeline-nz", repr(spec), use_ref), nontrivial=varies(nz.samples),
+                          kind="pipeline/nz%s/%s" % ("+ref" if use_ref else "", profile))
+                add_cov(ctx, b_cov, nz, jk.probes_for(ctx.rng, len(dz)), dict(kind="pipeline", spec=spec),
+                        ("cov-pipeline-nz", repr(spec), use_ref), "covariance/pipeline-nz")
+        # sample k against the measurement repeated without patch k
+        if not patches_as_generated(spec, res["crosscorrelate"]):
+            ctx.bump("pipeline_patches_not_as_generated")
+            return
+        tol = "tolp" if spec["rweight"] is not None else "tol48"
+        for k in (ks if ks is not None else [ctx.rng.randrange(spec["npatch"])]):
+            try:
+                red = pipe_measure(spec, pipe_catalogs(ctx, spec, "%s_wo%d" % (tag, k), skip=k))
+            except Exception as e:  # noqa: BLE001
+                ctx.bump("pipeline_rerun_refused:%s" % type(e).__name__)
+                continue
+            for which, cf in red.items():
+                if cds[which] is None:
+                    continue
+                again = jk.quiet(cf.sample).data
+                mine = np.asarray(cds[which].samples)[k]
+                b_rerun.add("c03_rerun_case %s %s %s" % (tol, jk.oqlist(mine), jk.oqlist(again)), h_rerun(ctx),
+                            dict(kind="pipeline", spec=spec, k=k, which=which))
+                both = np.isfinite(mine) & np.isfinite(np.asarray(again, dtype=float))
+                ctx.count(key=("pipeline-rerun", repr(spec), k, which), nontrivial=bool(both.any()),
+                          kind="pipeline/rerun-without-patch/%s/%s" % (which, profile))
+                ctx.bump("pipeline_rerun_entries:numbers-in-both", int(both.sum()))
+                ctx.bump("pipeline_rerun_entries:not-compared", int((~both).sum()))
+    finally:
+        for d in os.listdir(ctx.workdir):
+            if d.startswith("pipe_%s_" % tag):
+                shutil.rmtree(os.path.join(ctx.workdir, d), ignore_errors=True)
+
+
+def magnitude_probe(ctx, b_raw, b_corr, b_nz, b_cov, b_hist, b_rerun):
+    """deterministic members of the class (independent of VERIF_SEED): every profile once through every container, and
+    real measurements with catalog weights of 2^-30 and with rweight"""
+    import random
+    prng = random.Random(50505)
+    for profile in PC_PROFILES:
+        case_sps(ctx, b_raw, gen_single_mag(prng, "sps", profile=profile))
+        case_weights(ctx, b_raw, gen_single_mag(prng, "weights", profile=profile))
+        case_nc(ctx, b_raw, gen_single_mag(prng, "nc", profile=profile))
+    for profile in CF_PROFILES:
+        for auto in (False, True):
+            case_corr(ctx, b_corr, b_cov, gen_corr_mag(prng, profile=profile, shape=(3, 5), auto=auto))
+    case_nz(ctx, b_nz, b_cov, gen_nz_spec_mag(prng))
+    case_nz_direct(ctx, b_nz, b_cov, gen_nz_direct(prng))
+    for n, cls in enumerate(("CorrData", "RedshiftData", "HistData")):
+        case_direct(ctx, b_cov, gen_direct_mag(prng, DIRECT_PATTERNS[n], cls))
+    for n, region in enumerate(("tiny", "huge")):
+        case_hist(ctx, b_hist, b_cov, gen_hist_mag(prng, 4, 3, region), "mag_probe_%d" % n)
+    for n, (mode, rweight) in enumerate((("tiny", None), ("plain", 1.0), ("tiny", -0.5))):
+        case_pipeline(ctx, b_corr, b_nz, b_cov, b_rerun, gen_pipeline(prng, mode, rweight), "probe%d" % n)
+
+
 # ----------------------------------------------------------------------------- entry points
 def run(ctx):
     rng = ctx.rng
     traces(ctx)
     ctx.log("traces done")
     b_raw = jk.Batch(ctx, "Cases_C03_raw", shard=60)
-    b_corr = jk.Batch(ctx, "Cases_C03_corr", shard=30)
+    b_corr = BatchX(ctx, "Cases_C03_corr", shard=30)
     b_cov = jk.Batch(ctx, "Cases_C03_cov", shard=12)
     b_nz = jk.Batch(ctx, "Cases_C03_nz", shard=40)
     b_hist = jk.Batch(ctx, "Cases_C03_hist", shard=80)
+    b_rerun = BatchX(ctx, "Cases_C03_rerun", shard=80)
     f10b_probe(ctx, b_hist, b_cov)
     large_n_probe(ctx)
     undefined_probe(ctx, b_corr, b_nz, b_cov)
+    magnitude_probe(ctx, b_raw, b_corr, b_nz, b_cov, b_hist, b_rerun)
     small = not ctx.quick()          # thorough: many cases, mostly small shapes
+
+    def few():
+        return small and rng.random() < 0.7
     for _ in range(ctx.n(50, 900)):
-        case_sps(ctx, b_raw, gen_single(rng, "sps", small and rng.random() < 0.7))
+        case_sps(ctx, b_raw, gen_single(rng, "sps", few()))
     for _ in range(ctx.n(40, 600)):
-        case_weights(ctx, b_raw, gen_single(rng, "weights", small and rng.random() < 0.7))
+        case_weights(ctx, b_raw, gen_single(rng, "weights", few()))
     for _ in range(ctx.n(50, 900)):
-        case_nc(ctx, b_raw, gen_single(rng, "nc", small and rng.random() < 0.7))
+        case_nc(ctx, b_raw, gen_single(rng, "nc", few()))
     for _ in range(ctx.n(100, 1700)):
-        case_corr(ctx, b_corr, b_cov, gen_corr(rng, small and rng.random() < 0.7))
+        case_corr(ctx, b_corr, b_cov, gen_corr(rng, few()))
     for _ in range(ctx.n(30, 450)):
-        case_nz(ctx, b_nz, b_cov, jk.gen_nz_spec(rng, small and rng.random() < 0.7))
+        case_nz(ctx, b_nz, b_cov, jk.gen_nz_spec(rng, few()))
     for _ in range(ctx.n(30, 450)):
         case_corr(ctx, b_corr, b_cov, gen_corr_undefined(rng))
     for _ in range(ctx.n(12, 150)):
@@ -598,10 +1071,33 @@ def run(ctx):
         weighted = rng.random() < 0.7
         edges, rows, obs = jk.gen_hist_catalog(rng, N, B, weighted=weighted)
         case_hist(ctx, b_hist, b_cov, dict(edges=edges, rows=rows, obs=obs, weighted=weighted), "h%d" % i)
+    # ---- magnitudes: the same scenarios on power-of-two scaled arrays
+    for _ in range(ctx.n(25, 400)):
+        case_sps(ctx, b_raw, gen_single_mag(rng, "sps", few()))
+    for _ in range(ctx.n(25, 300)):
+        case_weights(ctx, b_raw, gen_single_mag(rng, "weights", few()))
+    for _ in range(ctx.n(35, 500)):
+        case_nc(ctx, b_raw, gen_single_mag(rng, "nc", few()))
+    for _ in range(ctx.n(50, 800)):
+        case_corr(ctx, b_corr, b_cov, gen_corr_mag(rng, few()))
+    for _ in range(ctx.n(15, 200)):
+        case_nz(ctx, b_nz, b_cov, gen_nz_spec_mag(rng, ctx.quick() or few()))
+    for _ in range(ctx.n(24, 300)):
+        case_nz_direct(ctx, b_nz, b_cov, gen_nz_direct(rng, scaled=rng.random() < 0.75))
+    for _ in range(ctx.n(24, 300)):
+        case_direct(ctx, b_cov, gen_direct_mag(rng))
+    for i in range(ctx.n(14, 150)):
+        case_hist(ctx, b_hist, b_cov, gen_hist_mag(rng, rng.choice([2, 3, 3, 4, 5, 7]), rng.choice([1, 2, 3, 4])), "hm%d" % i)
+    # ---- the real pipeline
+    for i in range(ctx.n(7, 60)):
+        spec = gen_pipeline(rng)
+        case_pipeline(ctx, b_corr, b_nz, b_cov, b_rerun, spec, "p%d" % i,
+                      ks=None if ctx.quick() else list(range(spec["npatch"])))
     if not ctx.quick():
         exhaustive_binary(ctx, b_raw)
-    ctx.log("implementation runs done; evaluating %d cases in Coq" % sum(len(b.items) for b in (b_hist, b_raw, b_corr, b_nz, b_cov)))
-    for b in (b_hist, b_raw, b_corr, b_nz, b_cov):
+    batches = (b_hist, b_raw, b_corr, b_nz, b_cov, b_rerun)
+    ctx.log("implementation runs done; evaluating %d cases in Coq" % sum(len(b.items) for b in batches))
+    for b in batches:
         b.run()
         ctx.log("%s evaluated" % b.name)
 
@@ -609,7 +1105,7 @@ def run(ctx):
 def replay(ctx, body):
     r = body.get("replay", body)
     spec, kind = r["spec"], r["kind"]
-    b, bc = jk.Batch(ctx, "Replay_C03"), jk.Batch(ctx, "Replay_C03_cov")
+    b, bc = BatchX(ctx, "Replay_C03"), jk.Batch(ctx, "Replay_C03_cov")
     if kind == "sps":
         case_sps(ctx, b, spec)
     elif kind == "weights":
@@ -620,6 +1116,10 @@ def replay(ctx, body):
         case_corr(ctx, b, bc, spec)
     elif kind in ("nz", "nz-cov"):
         case_nz(ctx, b, bc, spec)
+    elif kind in ("nz-direct", "nz-direct-cov"):
+        case_nz_direct(ctx, b, bc, spec)
+    elif kind == "pipeline":
+        case_pipeline(ctx, b, b, bc, b, spec, "replay", ks=[r["k"]] if "k" in r else list(range(spec["npatch"])))
     elif kind == "direct":
         case_direct(ctx, bc, spec)
     elif kind in ("hist", "hist-cov"):
